@@ -11,8 +11,8 @@ use std::time::{Duration, Instant};
 pub enum Outcome {
     /// the closure returned; payload = what it wrote
     Completed(Vec<u8>),
-    /// killed by a signal; if the allocator refused a request first: (requested bytes, innermost calamine function)
-    Died { signal: i32, refused: Option<(u64, String)> },
+    /// killed by a signal; if the allocator refused a request first: (requested bytes, live bytes with it, innermost calamine function)
+    Died { signal: i32, refused: Option<(u64, u64, String)> },
     Timeout,
     /// fork/pipe failure (harness problem)
     Failed(String),
@@ -21,7 +21,7 @@ pub enum Outcome {
 static mut REPORT_FD: i32 = -1;
 
 /// called by the allocator (in the forked child) when it refuses a request: best effort report
-pub fn report_refused(size: usize) {
+pub fn report_refused(size: usize, live: usize) {
     let fd = unsafe { REPORT_FD };
     if fd < 0 {
         return;
@@ -29,8 +29,11 @@ pub fn report_refused(size: usize) {
     unsafe { REPORT_FD = -1 };
     // the process is about to abort: capturing a backtrace here is acceptable
     let bt = std::backtrace::Backtrace::force_capture().to_string();
-    let func = crate::engine::innermost_calamine_frame(&bt).unwrap_or_else(|| "<no calamine frame>".into());
-    let msg = format!("\u{1}REFUSED {size} {func}\n");
+    // blame the owner of the largest block requested so far (the one that made the heap big), or,
+    // when everything was small, whoever asked last
+    let big = crate::alloc::big_request_func();
+    let func = if !big.is_empty() { big } else { crate::engine::innermost_calamine_frame(&bt).unwrap_or_else(|| "<no calamine frame>".into()) };
+    let msg = format!("\u{1}REFUSED {size} {live} {func}\n");
     unsafe {
         libc::write(fd, msg.as_ptr() as *const libc::c_void, msg.len());
     }
@@ -129,8 +132,9 @@ pub fn isolated(timeout: Duration, f: impl FnOnce() -> Vec<u8>) -> Outcome {
     let refused = text.lines().find_map(|l| {
         let l = l.trim_start_matches('\u{1}');
         let rest = l.strip_prefix("REFUSED ")?;
-        let (size, func) = rest.split_once(' ')?;
-        Some((size.parse().ok()?, func.to_string()))
+        let (size, rest) = rest.split_once(' ')?;
+        let (live, func) = rest.split_once(' ')?;
+        Some((size.parse().ok()?, live.parse().ok()?, func.to_string()))
     });
     Outcome::Died { signal, refused }
 }
